@@ -62,6 +62,7 @@ type spec struct {
 	Replay    *replay    `json:"replay,omitempty"`
 	Replays   []replay   `json:"replays,omitempty"`
 	Repeat    int        `json:"repeat,omitempty"`
+	PlanOnly  bool       `json:"plan_only,omitempty"`
 	MaxWallS  float64    `json:"max_wall_s,omitempty"`
 	KeepTrace bool       `json:"keep_trace,omitempty"`
 	Known     []knownSig `json:"known,omitempty"`
@@ -91,6 +92,7 @@ type runViolation struct {
 	Trace     []string        `json:"trace"`
 	Known     bool            `json:"known"`
 	Race      bool            `json:"race"`
+	Crash     bool            `json:"crash"`
 }
 
 type sample struct {
@@ -212,7 +214,14 @@ func (b *build) runWorker(s *spec, timeout time.Duration, extraEnv ...string) (*
 	}
 	defer os.Remove(sp)
 	defer os.Remove(s.Out)
-	cmd := exec.Command(b.worker, "-test.run", "^TestWorker$", "-test.timeout", "0", "-test.cpu", "4")
+	var cmd *exec.Cmd
+	if b.race {
+		cmd = exec.Command(b.worker, "-test.run", "^TestWorker$", "-test.timeout", "0", "-test.cpu", "4")
+	} else {
+		// address-space guard: a runaway allocation of the code under test kills this worker
+		// (and is then isolated as a process crash) instead of the machine
+		cmd = exec.Command("/bin/sh", "-c", "ulimit -v 4000000; exec \"$0\" \"$@\"", b.worker, "-test.run", "^TestWorker$", "-test.timeout", "0", "-test.cpu", "4")
+	}
 	cmd.Env = append(os.Environ(), "VSIM_SPEC="+sp)
 	if b.race {
 		logp := filepath.Join(b.scratch, fmt.Sprintf("race-%d", id))
@@ -244,7 +253,7 @@ func (b *build) runWorker(s *spec, timeout time.Duration, extraEnv ...string) (*
 	}
 	data, err := os.ReadFile(s.Out)
 	if err != nil {
-		return nil, fmt.Errorf("worker produced no result (%v): %s", werr, tail(buf.String(), 4000))
+		return nil, &workerDied{err: fmt.Sprintf("%v", werr), output: tail(buf.String(), 6000)}
 	}
 	var r result
 	if err := json.Unmarshal(data, &r); err != nil {
@@ -255,6 +264,26 @@ func (b *build) runWorker(s *spec, timeout time.Duration, extraEnv ...string) (*
 	}
 	r.Meta = map[string]string{"output": tail(buf.String(), 20000)}
 	return &r, nil
+}
+
+// workerDied: the worker process ended without writing its result (fatal error of the Go
+// runtime, out of memory, killed): the code under test took the process down.
+type workerDied struct {
+	err    string
+	output string
+}
+
+func (w *workerDied) Error() string {
+	return "worker produced no result (" + w.err + "): " + w.output
+}
+
+func (w *workerDied) reason() string {
+	for _, l := range strings.Split(w.output, "\n") {
+		if strings.HasPrefix(l, "fatal error:") || strings.HasPrefix(l, "panic:") || strings.HasPrefix(l, "runtime: out of memory") {
+			return strings.TrimSpace(l)
+		}
+	}
+	return "worker process " + w.err
 }
 
 func tail(s string, n int) string {
@@ -374,6 +403,7 @@ type agg struct {
 	expect           []string
 	knownHits        map[string]int
 	raceRuns         int
+	crashes          int
 }
 
 func newAgg() *agg {
@@ -454,6 +484,16 @@ func runCheck(c *checkCfg) int {
 						return
 					}
 					r, err := b.runWorker(&spec{Profile: c.profile, Tier: c.tier, Seed: c.seed, From: from, Count: cnt, MaxWallS: remain, Known: knownSigs}, time.Duration(remain+180)*time.Second)
+					if wd, ok := err.(*workerDied); ok {
+						if rv := isolateCrash(b, c, from, cnt, wd); rv != nil {
+							mu.Lock()
+							a.violations = append(a.violations, *rv)
+							a.crashes++
+							stop = true
+							mu.Unlock()
+							continue
+						}
+					}
 					mu.Lock()
 					if err != nil {
 						a.workersFailed = append(a.workersFailed, err.Error())
@@ -495,8 +535,11 @@ func runCheck(c *checkCfg) int {
 		fmt.Fprintf(os.Stderr, "vsim: worker trouble (exit 2, not a violation): %s\n", a.workersFailed[0])
 		return 2
 	}
-	if a.runs == 0 {
+	if a.runs == 0 && len(a.violations) == 0 {
 		fatal2("no runs were executed")
+	}
+	if a.runs == 0 {
+		a.runs = 1 // the crashing run itself
 	}
 	// violations: group, minimise, verify replay, compare with known findings
 	exit := 0
@@ -548,6 +591,35 @@ func runCheck(c *checkCfg) int {
 	return exit
 }
 
+// isolateCrash re-runs the runs of a chunk whose worker died one per process until the
+// run that takes the process down is found; that run becomes a violation (kind process-crash).
+func isolateCrash(b *build, c *checkCfg, from, cnt int, wd *workerDied) *runViolation {
+	for i := 0; i < cnt; i++ {
+		idx := from + i
+		_, err := b.runWorker(&spec{Profile: c.profile, Tier: c.tier, Seed: c.seed, From: idx, Count: 1}, 300*time.Second)
+		d, ok := err.(*workerDied)
+		if !ok {
+			continue
+		}
+		// second opinion in another fresh process
+		_, err2 := b.runWorker(&spec{Profile: c.profile, Tier: c.tier, Seed: c.seed, From: idx, Count: 1}, 300*time.Second)
+		if _, again := err2.(*workerDied); !again {
+			continue
+		}
+		pr, err3 := b.runWorker(&spec{Profile: c.profile, Tier: c.tier, Seed: c.seed, From: idx, Count: 1, PlanOnly: true}, 60*time.Second)
+		var plan json.RawMessage
+		var seed uint64
+		if err3 == nil && len(pr.Samples) > 0 {
+			plan, seed = pr.Samples[0].Plan, pr.Samples[0].RunSeed
+		}
+		return &runViolation{Run: idx, ChunkFrom: idx, RunSeed: seed, Plan: plan, Crash: true,
+			Violation: violation{Property: c.prop, Kind: "process-crash", Sig: "the simulated request path took the whole process down: " + d.reason(),
+				Detail: "run " + strconv.Itoa(idx) + " ends the worker process in two fresh processes:\n" + tail(d.output, 2500)}}
+	}
+	_ = wd
+	return nil
+}
+
 func loadKnown() []knownFinding {
 	var k struct {
 		Findings []knownFinding `json:"findings"`
@@ -574,6 +646,20 @@ func matchKnown(known []knownFinding, v *violation) *knownFinding {
 // process; ok only if the same violation kind and the same history hash come back.
 func finalizeViolation(b *build, c *checkCfg, v *runViolation) (string, bool, string) {
 	want := v.Violation.Property + "/" + v.Violation.Kind
+	if v.Crash {
+		dir := filepath.Join(verifRoot, "replays", c.prop)
+		_ = os.MkdirAll(dir, 0o755)
+		path := filepath.Join(dir, fmt.Sprintf("%s-%d.json", v.Violation.Kind, v.RunSeed))
+		file := map[string]interface{}{"property": c.prop, "profile": c.profile, "violation": v.Violation, "seed": v.RunSeed, "base_seed": c.seed,
+			"run_index": v.Run, "plan": v.Plan, "schedule": nil, "replay_mode": "crash",
+			"chunk":           map[string]interface{}{"base_seed": c.seed, "from": v.Run, "count": 1, "tier": c.tier},
+			"reproducibility": "the run ended the worker process in 2 of 2 fresh processes (no history can be recorded: the process dies)"}
+		data, _ := json.MarshalIndent(file, "", " ")
+		if err := os.WriteFile(path, data, 0o644); err != nil {
+			return "", false, err.Error()
+		}
+		return path, true, ""
+	}
 	plan, sched := minimise(b, c, v, want)
 	// authoritative replay of the minimised case, twice, fresh processes
 	r1, err := b.runWorker(&spec{Profile: c.profile, Tier: c.tier, Replay: &replay{Plan: plan, Schedule: sched}, KeepTrace: true}, 120*time.Second)
@@ -987,6 +1073,14 @@ func cmdReplay(args []string) int {
 	for t := 0; t < tries; t++ {
 		var r *result
 		var err error
+		if f.ReplayMode == "crash" && f.Chunk != nil {
+			_, err := b.runWorker(&spec{Profile: f.Profile, Tier: f.Chunk.Tier, Seed: f.Chunk.BaseSeed, From: f.Chunk.From, Count: 1}, 600*time.Second)
+			if d, ok := err.(*workerDied); ok {
+				fmt.Printf("VIOLATION property=%s replay=%s\n  kind=process-crash\n  %s\n", f.Property, args[0], d.reason())
+				return 1
+			}
+			continue
+		}
 		if f.ReplayMode == "chunk-prefix" && f.Chunk != nil {
 			r, err = b.runWorker(&spec{Profile: f.Profile, Tier: f.Chunk.Tier, Seed: f.Chunk.BaseSeed, From: f.Chunk.From, Count: f.Chunk.Count, KeepTrace: false}, 900*time.Second)
 		} else {
